@@ -234,6 +234,9 @@ def check_reuse(x1, x2, p, fname):
 
 
 def replay(rep):
+    if rep.get('replay', {}).get('form') == 'routes':
+        from props import _estimators as E_
+        return E_.replay_routes(rep['replay'])
     if rep['replay'].get('protocol') == 'values_only':
         from props import _purity
         return _purity.replay_protocol(rep['replay'])
@@ -298,6 +301,9 @@ def run(ctx):
     from spectrum import arcovar, modcovar, corrmtx, pcovar, pmodcovar
     rng = ctx.rng
     ctx.check_theorems('Properties/C14.v')
+    # the estimate an object holds does not depend on the history that gave it its data and settings (every route of _estimators.via)
+    from props import _estimators as E_
+    E_.class_route_stream(ctx, ['pcovar', 'pmodcovar'], 'routes')
 
     # ---------------- exact correspondence inside Coq
     cases = []; meta = []
